@@ -29,7 +29,13 @@ type Slicer struct {
 	// Args makes a call result also derive from the call's receiver and arguments
 	// (data dependence through calls), for every call whether followed or not.
 	Args bool
+	// Up traces a parameter of an extracted helper (a function whose callers are all known,
+	// see interproc.go) into the arguments at its call sites — union over the call sites.
+	Up bool
 }
+
+// WithUp returns a copy of the slicer that lifts helper parameters into their call sites.
+func (s *Slicer) WithUp() *Slicer { c := *s; c.Up = true; return &c }
 
 // WithArgs returns a copy of the slicer that treats call results as derived from the
 // call's operands.
@@ -39,6 +45,24 @@ type frame struct {
 	call   *ssa.Call
 	parent *frame
 	depth  int
+	up     bool // marks a step from a helper's parameter up into a call site
+}
+
+func upDepth(f *frame) int {
+	n := 0
+	for ; f != nil; f = f.parent {
+		if f.up {
+			n++
+		}
+	}
+	return n
+}
+
+func frDepth(f *frame) int {
+	if f == nil {
+		return 0
+	}
+	return f.depth
 }
 
 type visitKey struct {
@@ -69,7 +93,7 @@ func (s *Slicer) follow(c *ssa.Call, callee *ssa.Function, fr *frame) bool {
 	}
 	// no recursion
 	for f := fr; f != nil; f = f.parent {
-		if f.call.Call.StaticCallee() == callee {
+		if f.call != nil && f.call.Call.StaticCallee() == callee {
 			return false
 		}
 	}
@@ -103,7 +127,7 @@ func (s *Slicer) walk(v ssa.Value, fr *frame, seen map[visitKey]bool, visit func
 	case *ssa.Const, *ssa.Global, *ssa.Function, *ssa.Builtin:
 		visit(Node{v, true})
 	case *ssa.Parameter:
-		if fr != nil {
+		if fr != nil && !fr.up {
 			// bound to the actual argument in the caller's context
 			if !visit(Node{v, false}) {
 				return
@@ -116,6 +140,19 @@ func (s *Slicer) walk(v ssa.Value, fr *frame, seen map[visitKey]bool, visit func
 				}
 			}
 			return
+		}
+		// parameter of the analysed function: if that function is an extracted helper whose
+		// callers are all known, the value comes from the arguments at its call sites
+		if s.Up && upDepth(fr) < LiftDepth {
+			if args := upArgs(n); len(args) > 0 {
+				if !visit(Node{v, false}) {
+					return
+				}
+				for _, a := range args {
+					s.walk(a, &frame{up: true, parent: fr, depth: frDepth(fr)}, seen, visit)
+				}
+				return
+			}
 		}
 		visit(Node{v, true})
 	case *ssa.FreeVar:
